@@ -4,6 +4,7 @@ import PdshVerif.Dsh.FanGLive
 import PdshVerif.Dsh.FanGExec
 import PdshVerif.Dsh.FanRelay
 import PdshVerif.Dsh.FanPoll
+import PdshVerif.Dsh.FanX
 import PdshVerif.Props.C05
 
 /-!
@@ -382,6 +383,76 @@ example : (run (init .whileWait 1 2)
     some (.returned, [.done, .done]) := by decide
 
 end G
+
+/-! ## when resources run out: `pthread_create` fails, the descriptor limit is tight (`Dsh/FanX.lean`)
+
+The protocol LTS wrapped in its environment: the prologue `_increase_nofile_limit` (any limits, `getrlimit` /
+`setrlimit` working or not) and, wherever the dispatcher is about to create a worker, the possibility that
+`pthread_create` fails.  The statement of C03 survives in the only form it can: EITHER every target gets its command
+exactly once and dsh() returns after all of them, OR pdsh stops with a message and exit status 1 -- it never goes on
+without the target whose worker it could not create, and never reports success. -/
+namespace X
+open PdshVerif.Dsh PdshVerif.Dsh.FanX
+
+/-- whatever the environment does, no target's command is started twice, and none for a non-target -/
+theorem once_only {v : FanG.Variant} {setting n : Nat} {k : Bool} {ls : List FanX.Label} {s : FanX.St}
+    (he : FanX.Exec (FanX.init v setting n k) ls s) (i : Nat) :
+    (ls.filterMap FanX.projLabel).count (.w i .connectBegin) ≤ 1 ∧
+    (FanG.Label.w i .connectBegin ∈ ls.filterMap FanX.projLabel → i < n) :=
+  ⟨G.once_only (proj_exec he).1 i, fun h => G.none_else (proj_exec he).1 h⟩
+
+/-- EACH TARGET EXACTLY ONCE, OR A LOUD NON-ZERO EXIT.  Every execution (every limit, every schedule, `pthread_create`
+    failing at any point) is in exactly one of three situations: nothing has happened yet; pdsh is running, no create
+    has failed, the descriptor limit has not changed the fanout (`s.g.f = setting`), and IF dsh() has returned then
+    every target was started exactly once and torn down exactly once; or pdsh has exited with status 1 right after
+    the failed `pthread_create` for a target `j < n` whose command had NOT been started -- with `-k` having forwarded
+    SIGTERM first -- and dsh() has not returned (no exit status 0, no silent skip). -/
+theorem all_once_or_loud_exit {v : FanG.Variant} {setting n : Nat} {k : Bool} {ls : List FanX.Label} {s : FanX.St}
+    (he : FanX.Exec (FanX.init v setting n k) ls s) :
+    (s.ph = .prologue ∧ ls = []) ∨
+    (s.ph = .running ∧ ls.any FanX.Label.isFail = false ∧ s.g.f = setting ∧
+      (FanG.Final s.g → ∀ i, i < n → (ls.filterMap FanX.projLabel).count (.w i .connectBegin) = 1 ∧
+        (ls.filterMap FanX.projLabel).count (.w i .destroyEnd) = 1)) ∨
+    (s.ph = .exited 1 ∧ s.termSent = k ∧ ¬ FanG.Final s.g ∧
+      ∃ j ls0, j < n ∧ ls = ls0 ++ [.createFail j] ∧ ls0.any FanX.Label.isFail = false ∧
+        (ls.filterMap FanX.projLabel).count (.w j .connectBegin) = 0) := by
+  obtain ⟨hex, _, hpro, hrun, hexit⟩ := proj_exec he
+  cases hp : s.ph with
+  | prologue => exact Or.inl ⟨rfl, (hpro hp).1⟩
+  | running =>
+    refine Or.inr (Or.inl ⟨rfl, (hrun hp).1, (FanG.exec_params hex).2.1, fun hf i hi => ?_⟩)
+    have := G.exit_after_all hex hf i hi
+    exact ⟨this.1, this.2.1⟩
+  | exited c =>
+    obtain ⟨hc, ht, hd, hlt, ls0, hls, hnf⟩ := hexit c hp
+    subst hc
+    refine Or.inr (Or.inr ⟨rfl, ht, (by intro hf; rw [hf] at hd; cases hd), s.g.i, ls0, hlt, hls, hnf, ?_⟩)
+    have hinv := FanG.inv_exec (FanG.inv_init v setting n) hex
+    have hidle : FanG.pc s.g s.g.i = .idle := (hinv.front s.g.i).mpr (by simp [FanG.frontier, hd])
+    have := (FanG.hist_exec hex).common s.g.i .connectBegin rfl
+    rw [this, hidle]; rfl
+
+/-- after the exit nothing happens: no further command is started, dsh() does not return -/
+theorem exit_is_end {s : FanX.St} {c : Nat} (h : s.ph = .exited c) (l : FanX.Label) : FanX.step s l = none :=
+  exited_stuck h l
+
+/-- and pdsh does not hang either: while it is running (fanout setting ≥ 1, any descriptor limit) and dsh() has not
+    returned, some operation other than a spurious wake-up is enabled -/
+theorem progress {v : FanG.Variant} {setting n : Nat} {k : Bool} {ls : List FanX.Label} {s : FanX.St}
+    (hpos : 0 < setting) (he : FanX.Exec (FanX.init v setting n k) ls s) (hr : s.ph = .running)
+    (hnf : ¬ FanG.Final s.g) : ∃ l s', l.spurious = false ∧ FanX.step s (.g l) = some s' := by
+  obtain ⟨l, g', hsp, hs⟩ := G.progress hpos ⟨_, (proj_exec he).1⟩ hnf
+  exact ⟨l, { s with g := g' }, hsp, by simp [FanX.step, hr, hs]⟩
+
+/-- non-vacuity: limit 33 = hard limit (nothing to raise), fanout 1, two targets, `-k`; worker 0 runs, the create for
+    worker 1 fails: exit 1 with SIGTERM forwarded, target 0 started once, target 1 never -/
+example : (FanX.run (FanX.init .whileWait 1 2 true)
+    [.nofile 33 33 true true, .g (.d .lock), .g (.d (.create 0)), .g (.d .unlock), .g (.w 0 .connectBegin),
+     .g (.d .lock), .g (.d .wait), .g (.w 0 .connectEnd), .g (.w 0 .destroyBegin), .g (.w 0 .destroyEnd),
+     .g (.w 0 .lock), .g (.w 0 .signal), .g (.d (.wake false)), .g (.w 0 .unlock), .g (.d .relock),
+     .createFail 1]).map (fun s => (s.ph, s.termSent, s.g.f, s.soft)) = some (.exited 1, true, 1, 33) := by decide
+
+end X
 
 /-! ## end to end: "returns only after every started command has finished and its output has been delivered"
 
